@@ -307,6 +307,8 @@ class P(Prop):
         out += self.fe_grid()
         for _ in range(1500 if q else 20000):
             out.append(self.rand_fe(rng))
+        for _ in range(200 if q else 3000):
+            out.append(self.rand_feseq(rng))
         for _ in range(120 if q else 1500):
             out.append(self.rand_sb(rng))
         for _ in range(120 if q else 1200):
@@ -420,6 +422,26 @@ class P(Prop):
         return {"kind": "fe", "api": api, "s": s, "sig": sig, "fam": fam, "A": self.fe_table(rng, n, s), "glob": g, "dflt": d,
                 "mode": mode, "form": form}
 
+    def rand_feseq(self, rng):
+        """the same track and the same cost function, asked several times with other parameters / directions / entry points"""
+        base = self.rand_fe(rng)
+        while len(base["A"]) < 4 or base["sig"] in ("3", "nc"):
+            base = self.rand_fe(rng)
+        pool = self.GLOBS_T if base["fam"] == "weights" else (self.GLOBS_Q if base["s"] == "q" else self.GLOBS_F)
+        if base["fam"] == "thresh" and base["s"] == "f":
+            pool = [["none"]] + [["float", v] for v in (0.0, 1.0, 2.5, 5.0, INF)]
+        calls = []
+        for _ in range(rng.randrange(2, 5)):
+            api = rng.choice(["seg", "seg", "simp", "simplify"])
+            calls.append({"api": api, "glob": ["none"] if api == "simplify" else rng.choice(pool), "mode": rng.choice(["min", "max"]),
+                          "form": "pos"})
+        c = {x: base[x] for x in ("s", "sig", "fam", "A", "dflt")}
+        c.update(kind="feseq", calls=calls)
+        return c
+
+    def subcases(self, case):
+        return [dict({x: case[x] for x in ("s", "sig", "fam", "A", "dflt")}, kind="fe", **call) for call in case["calls"]]
+
     def rand_sb(self, rng):
         n = rng.choice([rng.randrange(3, 9), rng.randrange(5, 9), rng.randrange(0, 4)])
         pts, x, y = [], 0.0, 0.0
@@ -483,6 +505,9 @@ class P(Prop):
             t["domain"] = "in" if self.fe_in_domain(case) else "out"
             t["size"] = len(case["A"])
             t["form"] = case.get("form", "pos")
+        if k == "feseq":
+            t["calls"] = len(case["calls"])
+            t["sig"] = case["sig"]
         if k == "sb":
             t["smode"] = case["smode"]
             g = case["tol"]
@@ -503,6 +528,8 @@ class P(Prop):
             return len(case["pts"]) >= 4 and any(v for r in self.geometry(case)["Rcode"] for v in r)
         if k == "fe":
             return len(case["A"]) - 1 >= 3 and self.fe_in_domain(case)
+        if k == "feseq":
+            return len(case["A"]) - 1 >= 3 and any(self.fe_in_domain(c) for c in self.subcases(case))
         if k == "sb":
             return len(case["pts"]) - 1 >= 3 and case["tol"][0] != "none"
         return True
@@ -612,7 +639,6 @@ class P(Prop):
             s, M = self.matrix(case)
             form = case.get("form")
             C = self.nparray(s, M, form)
-            before = C.copy()
             m = self.MODES[case["mode"]]
             if case.get("modeval"):
                 m = eval(case["modeval"], {"np": self.np})
@@ -625,51 +651,25 @@ class P(Prop):
             else:
                 r = S.optimalPartition(C, m, False)
             idx = [int(x) for x in r]
-            if not (C == before).all():
-                raise ValueError("optimalPartition modified its cost matrix")
-            return {"idx": idx, "cost": self.cost_token(s, M, idx)}
+            # the caller still holds the matrix it built: a second request on the same object must be answered as well
+            again = [int(x) for x in S.optimalPartition(C, m, False)]
+            return {"idx": idx, "cost": self.cost_token(s, M, idx), "again": again}
         if k == "partseq":
             C = self.nparray(case["s"], case["C"])
             return {"seq": [[int(x) for x in S.optimalPartition(C, self.MODES[m], False)] for m in case["modes"]]}
         if k == "fe":
-            n = len(case["A"])
-            t = self.track(n)
-            cost = self.make_cost(case)
-            g = pyval(case["glob"], self.np)
-            m = self.MODES[case["mode"]]
-            form = case.get("form", "pos")
-            api = case["api"]
-            rec = {}
-            real = S.optimalPartition
-
-            def spy(C, *a, **kw):       # the matrix the front end really hands over (correspondence of its construction)
-                rec["matrix"] = self.mtok(case["s"], [[float(v) for v in row] for row in C.tolist()])
-                return real(C, *a, **kw)
-            S.optimalPartition = spy
-            try:
-                if api == "seg":
-                    if form == "kw":
-                        r = S.optimalSegmentation(t, cost, verbose=False, mode=m, glob_param=g)
-                    elif form == "omit" and g is None:
-                        r = S.optimalSegmentation(t, cost, mode=m, verbose=False)
-                    elif form == "defmode" and case["mode"] == "min":
-                        r = S.optimalSegmentation(t, cost, g, verbose=False)
-                    else:
-                        r = S.optimalSegmentation(t, cost, g, m, False)
-                    return {"idx": [int(x) for x in r], "matrix": rec.get("matrix")}
-                if api == "simp":
-                    if form == "kw":
-                        r = Z.optimalSimplification(t, cost, mode=m, eps=g, verbose=False)
-                    elif form == "defmode" and case["mode"] == "min":
-                        r = Z.optimalSimplification(t, cost, g, verbose=False)
-                    else:
-                        r = Z.optimalSimplification(t, cost, g, m, False)
-                else:
-                    smode = Z.MODE_SIMPLIFY_FREE if case["mode"] == "min" else Z.MODE_SIMPLIFY_FREE_MAXIMIZE
-                    r = Z.simplify(t, cost, smode) if form == "verbose" else Z.simplify(t, cost, smode, False)
-            finally:
-                S.optimalPartition = real
-            return {"idx": [int(r.getObs(i).position.getX()) for i in range(r.size())], "matrix": rec.get("matrix")}
+            return self.run_fe(case, self.track(len(case["A"])), self.make_cost(case))
+        if k == "feseq":
+            # one track object, one cost-function object, several requests in a row (state left by earlier calls)
+            t, cost = self.track(len(case["A"])), self.make_cost(case)
+            outs = []
+            for call in case["calls"]:
+                try:
+                    outs.append(self.run_fe(dict(case, kind="fe", **call), t, cost))
+                except Exception as e:
+                    import engine
+                    outs.append({"err": engine.err_kind(e), "detail": str(e)[:200]})
+            return {"seq": outs}
         if k == "sb":
             t = self.sb_track(case)
             tol = pyval(case["tol"], self.np)
@@ -682,6 +682,44 @@ class P(Prop):
         if k == "stops":
             return self.capture_stops(case)
         raise ValueError(k)
+
+    def run_fe(self, case, t, cost):
+        S, Z = self.S, self.Z
+        g = pyval(case["glob"], self.np)
+        m = self.MODES[case["mode"]]
+        form = case.get("form", "pos")
+        api = case["api"]
+        rec = {}
+        real = S.optimalPartition
+
+        def spy(C, *a, **kw):       # the matrix the front end really hands over (correspondence of its construction)
+            rec["matrix"] = self.mtok(case["s"], [[float(v) for v in row] for row in C.tolist()])
+            return real(C, *a, **kw)
+        S.optimalPartition = spy
+        try:
+            if api == "seg":
+                if form == "kw":
+                    r = S.optimalSegmentation(t, cost, verbose=False, mode=m, glob_param=g)
+                elif form == "omit" and g is None:
+                    r = S.optimalSegmentation(t, cost, mode=m, verbose=False)
+                elif form == "defmode" and case["mode"] == "min":
+                    r = S.optimalSegmentation(t, cost, g, verbose=False)
+                else:
+                    r = S.optimalSegmentation(t, cost, g, m, False)
+                return {"idx": [int(x) for x in r], "matrix": rec.get("matrix")}
+            if api == "simp":
+                if form == "kw":
+                    r = Z.optimalSimplification(t, cost, mode=m, eps=g, verbose=False)
+                elif form == "defmode" and case["mode"] == "min":
+                    r = Z.optimalSimplification(t, cost, g, verbose=False)
+                else:
+                    r = Z.optimalSimplification(t, cost, g, m, False)
+            else:
+                smode = Z.MODE_SIMPLIFY_FREE if case["mode"] == "min" else Z.MODE_SIMPLIFY_FREE_MAXIMIZE
+                r = Z.simplify(t, cost, smode) if form == "verbose" else Z.simplify(t, cost, smode, False)
+        finally:
+            S.optimalPartition = real
+        return {"idx": [int(r.getObs(i).position.getX()) for i in range(r.size())], "matrix": rec.get("matrix")}
 
     def sb_track(self, case):
         t = self.Track([], 7)
@@ -856,6 +894,8 @@ class P(Prop):
                 # the matrix construction on its own: loop form of the model against numpy's result, see decode/compare
                 reqs.append("C12.matrix %s %s" % (s, self.mtok(s, WD if case["glob"][0] == "none" else WG)))
             return reqs
+        if k == "feseq":
+            return [self.requests(c)[0] for c in self.subcases(case)]
         if k == "sb":
             W = self.sb_tables(case)
             return ["C12.simplify f %d 4 %s %s %s" % (case["smode"], "none" if case["tol"][0] == "none" else "some",
@@ -889,6 +929,9 @@ class P(Prop):
             raise ValueError("bad-request")
         if k == "partseq":
             return {"seq": [[int(x) for x in rr.split(" ")[0].split(",")] for rr in replies]}
+        if k == "feseq":
+            return {"seq": [{"err": rr} if rr.startswith("err:") else {"idx": [] if rr == "_" else [int(x) for x in rr.split(",")]}
+                            for rr in replies]}
         if r.startswith("err:"):
             return {"err": r}
         if k in ("sym", "part"):
@@ -896,7 +939,8 @@ class P(Prop):
             idx, d = r.split(" ")
             if len(replies) > 1 and replies[1] != d:
                 raise ValueError("table form D[0,N-1]=%s differs from function form opt=%s" % (d, replies[1]))
-            return {"idx": [int(x) for x in idx.split(",")], "cost": d if s == "q" else bitsf(d)}
+            return {"idx": [int(x) for x in idx.split(",")], "cost": d if s == "q" else bitsf(d),
+                    "again": [int(x) for x in idx.split(",")]}
         if k == "stops":
             mat, idx, st = r.split(" ")
             return {"C": [[Fraction(v) for v in row.split(",")] for row in mat.split(";")],
@@ -920,6 +964,12 @@ class P(Prop):
         k = case["kind"]
         if case.get("dom"):
             return None   # single/no candidate, asymmetric matrix: outside the property's domain, behaviour left free
+        if k == "feseq" and "seq" in impl_out:
+            for n, (sub, a, b) in enumerate(zip(self.subcases(case), impl_out["seq"], model_out["seq"])):
+                r = self.compare(sub, a, b)
+                if r:
+                    return "call %d: %s" % (n + 1, r)
+            return None
         if "err" in impl_out or "err" in model_out:
             if impl_out.get("err") == model_out.get("err"):
                 return None
@@ -931,6 +981,9 @@ class P(Prop):
             else:
                 a, b = float(impl_out["cost"]), float(model_out["cost"])
                 same_cost = a == b or abs(a - b) <= 1e-9 * max(1.0, abs(a), abs(b))
+            rel = 0 if s == "q" else 1e-9
+            if impl_out["again"] != model_out["again"] and not self.same_value(case, self.exact(s, M), impl_out["again"], model_out["again"], rel):
+                return "second call on the same matrix object: impl=%s model=%s" % (impl_out["again"], model_out["again"])
             if impl_out["idx"] == model_out["idx"] and same_cost:
                 return None
             # a different chain of the same cost is a tie-break difference, which the property leaves free
@@ -1002,6 +1055,15 @@ class P(Prop):
         k = case["kind"]
         if case.get("dom"):
             return None
+        if k == "feseq":
+            if "seq" not in out:
+                return "raised %s (%s)" % (out.get("err"), out.get("detail"))
+            for n, (sub, o) in enumerate(zip(self.subcases(case), out["seq"])):
+                r = self.spec(sub, o)
+                if r:
+                    return "call %d (%s, parameter %s, %s) on the same track and cost function: %s" % (
+                        n + 1, sub["api"], sub["glob"][1:], sub["mode"], r)
+            return None
         if k in ("fe", "sb"):
             Cx, rel = self.criterion(case)
             if Cx is None:
@@ -1016,7 +1078,11 @@ class P(Prop):
             s, M = self.matrix(case)
             if case.get("modeval") in NEITHER:
                 return None if is_chain(out["idx"], len(M) - 1) else "result %s is not a strictly increasing list from 0 to %d" % (out["idx"], len(M) - 2)
-            return oracle(self.exact(s, M), len(M) - 1, case["mode"] == "max", out["idx"], 0 if s == "q" else 1e-9)
+            r = oracle(self.exact(s, M), len(M) - 1, case["mode"] == "max", out["idx"], 0 if s == "q" else 1e-9)
+            if r is None:
+                r = oracle(self.exact(s, M), len(M) - 1, case["mode"] == "max", out["again"], 0 if s == "q" else 1e-9)
+                r = r and "second call on the same matrix object: " + r
+            return r
         if k == "partseq":
             Cx = self.exact(case["s"], case["C"])
             for n, (m, idx) in enumerate(zip(case["modes"], out["seq"])):
@@ -1125,6 +1191,15 @@ class P(Prop):
                         A2 = [list(r) for r in A]
                         A2[i][j] = zero
                         yield dict(case, A=A2)
+        if k == "feseq":
+            if len(case["calls"]) > 1:
+                for d in range(len(case["calls"])):
+                    yield dict(case, calls=case["calls"][:d] + case["calls"][d + 1:])
+            A = case["A"]
+            n = len(A)
+            if n > 4:
+                for d in range(n):
+                    yield dict(case, A=[[v for j, v in enumerate(r) if j != d] for i, r in enumerate(A) if i != d])
         if k == "sb" and len(case["pts"]) > 4:
             for d in range(len(case["pts"])):
                 yield dict(case, pts=case["pts"][:d] + case["pts"][d + 1:])
